@@ -172,7 +172,7 @@ def base_env(work):
 # ------------------------------------------------------------------------------------------------
 
 CHECK_RE = re.compile(
-    r"Check (\d+): (\S+)\n\s*- Status: (\w+)\n\s*- Description: \"(.*?)\"\n\s*- Location: ([^\n]*)", re.S)
+    r"Check (\d+): ([^\n]+)\n\s*- Status: (\w+)\n\s*- Description: \"(.*?)\"\n\s*- Location: ([^\n]*)", re.S)
 
 
 def parse_harness_output(text):
@@ -246,7 +246,7 @@ def kani_trace_values(work, ws, package, h, mem_gb=24):
     run_group(cmd, ws, base_env(work), timeout=h["cap"] * 3 + 600, mem_gb=mem_gb, log_path=log)
     txt = open(log, errors="replace").read()
     traces = {}
-    parts = re.split(r"\nTrace for (\S+):\n", txt)
+    parts = re.split(r"\nTrace for ([^\n]+):\n", txt)
     # parts = [pre, id1, body1, id2, body2, ...]
     for k in range(1, len(parts) - 1, 2):
         cid, body = parts[k], parts[k + 1]
